@@ -337,6 +337,27 @@ theorem inner_box_sound {cs : List ((List Dag × Dag) × String)} {box : Box}
       ∀ x ∈ v.d, C05.SignHolds c.2 x := C05.innerOk_sound h hp
 
 
+
+/-- **inner boxes, exact arithmetic**: when `innerOkX cs box` holds, every constraint holds at every real point of
+    the box at which it is defined (enclosure theorem of the exact interval algebra `Alg.real_itvX`) -/
+theorem innerOkX_sound {cs : List ((List Dag × Dag) × String)} {box : Box}
+    (h : innerOkX cs box = true) {p : List ℝ} (hp : Box.Mem p box) :
+    ∀ c ∈ cs, ∀ v, Eval.root Alg.real p (Eval.buildCalls Alg.real c.1.1) c.1.2 = some v →
+      ∀ x ∈ v.d, C05.SignHolds c.2 x := by
+  intro c hc v hv x hx
+  have hc' := List.all_eq_true.1 h c hc
+  unfold provedOnBoxX at hc'
+  split at hc'
+  · rename_i z hz
+    have hm : MatMem v z := Eval.root_rel Alg.real_itvX hp (Eval.buildCalls_rel Alg.real_itvX c.1.1) hv hz
+    obtain ⟨-, -, hd⟩ := hm
+    obtain ⟨i, hi, rfl⟩ := List.getElem_of_mem hx
+    have hi' : i < z.d.length := hd.length_eq ▸ hi
+    have hxI : v.d[i] ∈ z.d[i] := (forall₂_iff_getElem?.1 hd).2 i _ _
+      (List.getElem?_eq_getElem hi) (List.getElem?_eq_getElem hi')
+    exact C05.signProved_sound (List.all_eq_true.1 hc' _ (List.getElem_mem hi')) hxI
+  · cases hc'
+
 /-- **an inner box refuted**: the rule `innerRefutedBy` exhibits a real point of the box at which a constraint is
     defined and violated (some component of its value does not satisfy the sign condition) -/
 theorem innerRefutedBy_sound {cs : List ((List Dag × Dag) × String)} {b : Box} {p : List ℚ}
